@@ -137,6 +137,7 @@ impl Args {
                 1 << 20,
                 std::fs::File::create(&self.out).expect("create out"),
             ),
+            written: 0,
         }
     }
     /// replay file: the `C`/`H`/`O` lines of one case, exactly as written before
@@ -154,23 +155,36 @@ impl Args {
 
 pub struct Out {
     w: std::io::BufWriter<std::fs::File>,
+    written: u64,
 }
+/// A changed implementation can make a driver loop of a suite spin (e.g. a reassembler that never consumes anything): the
+/// case file must not grow without bound. The largest legitimate shard (thorough tier) stays below 100 MB.
+const OUT_LIMIT: u64 = 600_000_000;
 impl Out {
     /// a writer that discards everything
     pub fn sink() -> Out {
-        Out { w: std::io::BufWriter::new(std::fs::File::create("/dev/null").expect("sink")) }
+        Out { w: std::io::BufWriter::new(std::fs::File::create("/dev/null").expect("sink")), written: 0 }
+    }
+    fn put(&mut self, prefix: &str, line: &str) {
+        self.written += (prefix.len() + line.len() + 1) as u64;
+        if self.written > OUT_LIMIT {
+            let _ = self.w.flush();
+            eprintln!("harness: output limit of {} bytes exceeded (a loop of the suite does not terminate with this implementation); last record: {}", OUT_LIMIT, &line[..line.len().min(200)]);
+            std::process::exit(3);
+        }
+        writeln!(self.w, "{}{}", prefix, line).unwrap();
     }
     /// an input record (`C`, `H`, `O` ...) as the model driver will read it
     pub fn rec(&mut self, line: &str) {
-        writeln!(self.w, "{}", line).unwrap();
+        self.put("", line);
     }
     /// the implementation's canonical result for the preceding record
     pub fn imp(&mut self, line: &str) {
-        writeln!(self.w, "I {}", line).unwrap();
+        self.put("I ", line);
     }
     /// distribution counters and other notes (ignored by the driver)
     pub fn note(&mut self, line: &str) {
-        writeln!(self.w, "# {}", line).unwrap();
+        self.put("# ", line);
     }
     pub fn finish(mut self) {
         self.w.flush().unwrap();
